@@ -43,7 +43,7 @@ func c01Dotted(store int) []c01Sym {
 
 // the sweep dataset: every scalar field null / non-null, every set with 0..3 elements (and absent)
 func c01SweepDataset() *c01Dataset {
-	d := &c01Dataset{stores: make([][]c01Entity, len(c01Schema))}
+	d := &c01Dataset{stores: make([][]c01Entity, c01Roots)}
 	strs := []string{"a", "ab", "b"}
 	nums := []string{"15", "5", "7"}
 	placeIds := []string{"l", "la", "zz"}
@@ -63,6 +63,7 @@ func c01SweepDataset() *c01Dataset {
 			add(c01Val{k: 'w', i: int64(i)}, "ext", "grp")
 			add(c01Val{k: 's', s: placeIds[(i/2)%3]}, "place")
 			add([]c01Val{{k: 's', s: "ab"}, {k: 'i', i: 5}, {k: 'b', b: true}, {k: 'f', f: 5}}[i/2], "ext", "tags", "a")
+			add([]c01Val{{k: 'i', i: 5}, {k: 's', s: "ab"}, {k: 'n'}, {k: 's', s: "5"}}[i/2], "ext", "tags", "sub", "k")
 		} else if i%4 == 1 {
 			for _, k := range []string{"name", "nickname", "age", "big", "score", "whole", "flag", "born", "place"} {
 				add(c01Val{k: 'n'}, k)
@@ -81,7 +82,8 @@ func c01SweepDataset() *c01Dataset {
 	}
 	d.stores[1] = []c01Entity{
 		{id: "l", fields: []c01Field{{path: []string{"name"}, v: c01Val{k: 's', s: "ab"}}, {path: []string{"pop"}, v: c01Val{k: 'i', i: 5}},
-			{path: []string{"owner"}, v: c01Val{k: 's', s: "e0"}}, {path: []string{"org"}, v: c01Val{k: 's', s: "o"}}},
+			{path: []string{"owner"}, v: c01Val{k: 's', s: "e0"}}, {path: []string{"org"}, v: c01Val{k: 's', s: "o"}},
+			{path: []string{"tags", "a"}, v: c01Val{k: 's', s: "ab"}}, {path: []string{"tags", "n"}, v: c01Val{k: 'i', i: 5}}},
 			sets: []c01Set{{key: "biz", elems: []string{"a", "b"}}, {key: "orgs", elems: []string{"o", "zz"}}, {key: "visitors", elems: []string{"e1", "e2"}}}},
 		{id: "la", fields: []c01Field{{path: []string{"name"}, v: c01Val{k: 'n'}}, {path: []string{"owner"}, v: c01Val{k: 's', s: "zz"}}},
 			sets: []c01Set{{key: "biz", elems: nil}}},
@@ -109,12 +111,28 @@ type c01SweepLhs struct {
 	whole bool // string-mode comparisons with arbitrary float values possible
 }
 
-func c01SweepLhss(dotted bool) []c01SweepLhs {
+// c01SweepLhss: the left-hand sides of the sweep for the people store (store 0) or one of its child stores (own
+// symbols and own map elements in addition; the parent's map under the name the child knows it by)
+func c01SweepLhss(store int, dotted bool) []c01SweepLhs {
 	sub := func(text *c01Filter) *c01Filter { return &c01Filter{k: "q", a: text} }
 	one := int64(1)
 	out := []c01SweepLhs{}
-	for _, n := range []string{"id", "name", "nick", "nothing", "age", "big", "whole", "flag", "born", "grp", "place", "tags.a", "tags.zz"} {
+	tags := c01MapNameIn(store, "tags")
+	for _, n := range []string{"id", "name", "nick", "nothing", "age", "big", "whole", "flag", "born", "grp", "place", tags + ".a", tags + ".zz", tags + ".sub.k"} {
 		out = append(out, c01SweepLhs{lhs: &c01Lhs{k: "sym", name: n}, whole: true})
+	}
+	if c01Cur.raw[store].isChild {
+		for _, s := range c01Cur.raw[store].syms {
+			out = append(out, c01SweepLhs{lhs: &c01Lhs{k: "sym", name: s.name}, whole: true})
+		}
+		for _, m := range c01Cur.raw[store].maps {
+			for _, k := range []string{"a", "zz", "sub.k"} {
+				out = append(out, c01SweepLhs{lhs: &c01Lhs{k: "sym", name: m.name + "." + k}, whole: true})
+			}
+		}
+		if tags != "tags" { // the name the parent registered the map under is unknown in the child store
+			out = append(out, c01SweepLhs{lhs: &c01Lhs{k: "sym", name: "tags.a"}, whole: true})
+		}
 	}
 	out = append(out, c01SweepLhs{lhs: &c01Lhs{k: "sym", name: "score"}})
 	for _, n := range []string{"strs", "roles", "nums", "places", "friends"} {
@@ -146,15 +164,27 @@ func c01Sweep(r *c01Runner, dotted bool) int {
 	if err := r.loadDataset(d); err != nil {
 		panic(err)
 	}
+	return c01SweepStore(r, 0, dotted, false)
+}
+
+// c01SweepStore runs the sweep over the loaded sweep dataset through one store (people or a child store of it).
+// reduced: the symbol-resolution part only (every lhs shape x three operators x three literal kinds, one array and
+// one pair of bounds) - used for the schema variants, where the operator tables are the same code as in the base run
+func c01SweepStore(r *c01Runner, store int, dotted bool, reduced bool) int {
 	n := 0
 	run := func(f *c01Filter) {
-		r.runFilter(0, &c01Filter{k: "q", a: f})
+		r.runFilter(store, &c01Filter{k: "q", a: f})
 		n++
 	}
 	ops := append(append([]string{}, c01CmpOps...), c01StrOps...)
-	for _, l := range c01SweepLhss(dotted) {
+	lits := c01SweepLits()
+	if reduced {
+		ops = []string{"eq", "neq", "gte", "contains"}
+		lits = []*c01Lit{{k: 'S', s: "ab"}, {k: 'I', i: 5}, {k: 'N'}}
+	}
+	for _, l := range c01SweepLhss(store, dotted) {
 		for _, op := range ops {
-			for _, lit := range c01SweepLits() {
+			for _, lit := range lits {
 				run(&c01Filter{k: "bin", lhs: l.lhs, op: op, lit: lit})
 			}
 		}
@@ -167,6 +197,9 @@ func c01Sweep(r *c01Runner, dotted bool) int {
 			{"AN", []*c01Lit{{k: 'I', i: 15}, {k: 'F', ftxt: "5.0"}}},
 			{"AD", []*c01Lit{{k: 'D', sec: 1600000000, ns: 0, zone: 2}, {k: 'D', sec: 0, ns: 0}}},
 		}
+		if reduced {
+			arrs = arrs[:1]
+		}
 		for _, a := range arrs {
 			for _, neg := range []bool{false, true} {
 				run(&c01Filter{k: "in", lhs: l.lhs, neg: neg, arrK: a.k, arr: a.arr})
@@ -176,6 +209,9 @@ func c01Sweep(r *c01Runner, dotted bool) int {
 			{{k: 'I', i: 0}, {k: 'I', i: 6}},
 			{{k: 'F', ftxt: "1.5"}, {k: 'I', i: 15}},
 			{{k: 'D', sec: 0, ns: 0}, {k: 'D', sec: 1600000001, ns: 0, zone: 1}},
+		}
+		if reduced {
+			bounds = bounds[:1]
 		}
 		for _, b := range bounds {
 			for _, neg := range []bool{false, true} {
@@ -198,7 +234,7 @@ func c01Sweep(r *c01Runner, dotted bool) int {
 	}
 	run(&c01Filter{k: "emptyq", name: "name", sub: &c01Filter{k: "q", a: &c01Filter{k: "bc", b: true}}})
 	run(&c01Filter{k: "emptyq", name: "strs", sub: &c01Filter{k: "q", a: &c01Filter{k: "bc", b: true}}})
-	for _, nme := range []string{"flag", "name", "tags.a", "nothing", "unknown"} {
+	for _, nme := range []string{"flag", "name", c01MapNameIn(store, "tags") + ".a", "nothing", "unknown"} {
 		run(&c01Filter{k: "bs", name: nme})
 	}
 	return n
